@@ -135,8 +135,11 @@ def run_case(seed, index, props):
     return viol, tags, desc, 'ok'
 
 
+DEFAULT_BUDGET = {'quick': 600, 'thorough': 20000}
+
+
 def run(props, tier, seed, budget=None):
-    cov, findings = generic_run('cal', run_case, props, seed, budget or (600 if tier == 'quick' else 20000),
+    cov, findings = generic_run('cal', run_case, props, seed, budget or DEFAULT_BUDGET[tier],
                                 'seeded random calendar expressions of depth <= 3 over weekly/dated/fixed calendars and numbers, 6 dates each, availability search in both directions with horizons 0/1/5/40; plus the fixed list of definitions that must be rejected/accepted; distinct by expression text')
     for c, d in rejections():
         findings.append(Finding('C17', c, ['constructor'], d, {'scenario': 'cal', 'seed': seed, 'index': -1, 'input': c}))
